@@ -123,6 +123,23 @@ def triples():
                         "spec": {"kind": "update", "table": "n", "sets": [["w", ["i", 99]]], "where": crit}})
             out.append({"kind": "b", "cls": cls, "start": ["delete", "n"], "db": 0, "tag": "triple:delete:" + name,
                         "calls": [["where", crit]], "spec": {"kind": "delete", "table": "n", "where": crit}})
+    # unary minus and negative literals in every operator position (the shapes repaired by 33fa91c / fbde87c)
+    p_, q_ = fields[0], fields[1]
+    negs = [("neg-neg", ["neg", ["neg", p_]]), ("neg-lit", ["neg", I(-3)])]
+    for o in OPS:
+        negs += [("neg-over-%s" % o, ["neg", ["arith", o, p_, q_, None]]),
+                 ("%s-R-neg" % o, ["arith", o, p_, ["neg", q_], None]),
+                 ("%s-L-neg" % o, ["arith", o, ["neg", p_], q_, None]),
+                 ("%s-R-neglit" % o, ["arith", o, p_, I(-3), None]),
+                 ("%s-R-negtree" % o, ["arith", o, p_, ["arith", "mul", I(-3), q_, None], None])]
+    for name, tree in negs:
+        out.append({"kind": "b", "cls": "SQLLiteQuery", "start": ["update", "n"], "db": 0, "tag": "triple:neg-set:" + name,
+                    "calls": [["set", ["s", "w"], ["t", tree]], ["where", ["basic", "gt", F("id"), I(1), None]]],
+                    "spec": {"kind": "update", "table": "n", "sets": [["w", ["t", tree]]], "where": ["basic", "gt", F("id"), I(1), None]}})
+        v = _value_on_row(tree, 3)
+        crit = ["basic", "eq", tree, (I(v) if isinstance(v, int) else ["valf", repr(float(v)), None]), None]
+        out.append({"kind": "b", "cls": "SQLLiteQuery", "start": ["delete", "n"], "db": 0, "tag": "triple:neg-delete:" + name,
+                    "calls": [["where", crit]], "spec": {"kind": "delete", "table": "n", "where": crit}})
     for name, tree in triple_trees(consts):
         row = [["i", 100], ["t", tree]]
         out.append({"kind": "b", "cls": "SQLLiteQuery", "start": ["into", "n"], "db": 0, "tag": "triple:insert:" + name,
